@@ -338,9 +338,8 @@ func addImport(f *ast.File, name, path string) {
 // chan T -> *vsyncrt.Chan[T] wherever a type expression may sit
 func (r *rewriter) chanType(e ast.Expr) ast.Expr {
 	if ct, ok := e.(*ast.ChanType); ok {
-		if ct.Dir != ast.SEND|ast.RECV {
-			r.errorf(ct.Pos(), "directional channel types are not supported")
-		}
+		// <-chan T and chan<- T become the same shim type: direction only restricts what compiles, and a program that
+		// compiled keeps compiling when the restriction is dropped (a real channel flowing into such a type does not)
 		r.needRT = true
 		return &ast.StarExpr{X: &ast.IndexExpr{X: rt("Chan"), Index: r.chanType(ct.Value)}}
 	}
